@@ -10,7 +10,7 @@ if os.path.exists(mp):
             name, rest = line.split(':', 1)
             matrix[name.strip()] = rest.strip()
 rows = []
-for d in sorted(glob.glob(os.path.join(ROOT, 'seeded', 'S*'))):
+for d in sorted(glob.glob(os.path.join(ROOT, 'seeded', 'S*')), key=lambda d: int(re.match(r'S(\d+)', os.path.basename(d)).group(1))):
     m = json.load(open(os.path.join(d, 'meta.json')))
     name = m['id']
     mx = matrix.get(name)
@@ -18,7 +18,9 @@ for d in sorted(glob.glob(os.path.join(ROOT, 'seeded', 'S*'))):
         caught = ', '.join(m.get('caught_by_quick_checks', [])) + ' (individual runs)'
     else:
         flagged = re.findall(r'(C\d+)=1', mx)
-        inc = re.findall(r'(C\d+)=3', mx)
+        # checks strengthened after the matrix run and confirmed individually with tools/try_seed_wt.sh (recorded in meta.json)
+        flagged = sorted(set(flagged) | set(m.get('caught_by_quick_checks', [])))
+        inc = [c for c in re.findall(r'(C\d+)=3', mx) if c not in flagged]
         caught = ', '.join(flagged) if flagged else '**none**'
         if inc:
             caught += ' (exit 3: ' + ', '.join(inc) + ')'
